@@ -9,6 +9,7 @@
 extern crate iceoryx2_bb_loggers;
 
 mod h_c03;
+mod h_c05;
 mod h_c09;
 mod kit;
 
@@ -19,6 +20,8 @@ fn harnesses() -> Vec<Box<dyn Harness>> {
         Box::new(h_c03::QueueHarness { kind: "iq" }),
         Box::new(h_c03::QueueHarness { kind: "oq" }),
         Box::new(h_c03::QueueHarness { kind: "q" }),
+        Box::new(h_c05::EventHarness { counting: false }),
+        Box::new(h_c05::EventHarness { counting: true }),
         Box::new(h_c09::PoolHarness { kind: "uis" }),
         Box::new(h_c09::PoolHarness { kind: "robust" }),
         Box::new(h_c09::PoolHarness { kind: "alloc" }),
@@ -45,6 +48,7 @@ fn spec_for<'a>(hs: &'a [Box<dyn Harness>], prop: &'a str) -> CheckSpec<'a> {
     ];
     let rule: &str = match prop {
         "C03" => "one evaluation = one simulated execution of a generated producer/consumer(/hand-over) program over a real queue; schedule, stale loads, write splits drawn from the run seed. distinct_nontrivial = distinct (plan, context-switch/stale-read/split/kill signature) pairs among runs with at least one context switch or injected fault",
+        "C05" => "one evaluation = one simulated execution of 1..3 notifier threads (1..4 notify calls each, ids 0..2) racing a listener thread that issues a generated mix of try/timed waits and then blocks until a terminator id arrives; trigger capacity, fail_when_buffer_is_full, EINTR and notifier death are drawn per run; a deadlock with an undelivered successful notification is a lost wake-up. distinct_nontrivial = distinct (plan, schedule/fault signature) pairs among runs with at least one context switch or injected fault",
         "C09" => "one evaluation = one simulated execution of 2..3 threads doing generated acquire/release(/lock-if-last) sequences on a real index set or pool allocator of capacity 1..4, one run in four of the robust set kills a thread mid-operation and recovers its owner id; distinct_nontrivial = distinct (plan, schedule/fault signature) pairs among runs with at least one context switch or injected fault",
         _ => "one evaluation = one simulated execution of a generated scenario; distinct_nontrivial = distinct (plan, schedule/fault signature) pairs among runs with at least one context switch or injected fault",
     };
